@@ -24,16 +24,18 @@ def oracle(sch, txs, io, mo):
     prev = []
     for k, (t, a) in enumerate(zip(txs, io)):
         precommit_fails = t[1] == "1"
-        has_fail_op = "FAIL" in t
+        has_fail_op = "FAIL" in t or "FAILT" in t
         if a["vetoed"] and a["commit"]:
             out.append(("C07:veto-swallowed", "a constraint vetoed a change in ProcessPreCommit, yet every operation returned nil and "
                         "the transaction committed (results %s)" % a["results"], k))
         elif any(r != "ok" for r in a["results"]) and a["commit"]:
             out.append(("C07:commit-after-error", "an operation returned an error but Db.Update committed", k))
-        elif (precommit_fails or has_fail_op) and a["commit"] and all(r == "ok" for r in a["results"]) and \
-                (precommit_fails or len(a["results"]) > t.index("FAIL") - 999):
-            if precommit_fails:
-                out.append(("C07:precommit-ignored", "a pre-commit action failed but the transaction committed", k))
+        elif precommit_fails and a["commit"]:
+            out.append(("C07:precommit-ignored", "a pre-commit action failed but the transaction committed", k))
+        elif has_fail_op and a["commit"]:
+            what = ("a create carrying a tag value the storage layer rejects (nested map among nil tags) reported success"
+                    if "FAILT" in t else "the caller's function returned an error")
+            out.append(("C07:failing-step-committed", what + " but the transaction committed (results %s)" % a["results"], k))
         if not a["commit"]:
             if a["facts"] != prev:
                 out.append(("C07:partial-rollback", "a failed transaction changed the database: +%s -%s" % (
